@@ -4,7 +4,8 @@ Require Import FstV.Base FstV.Pack FstV.Node FstV.Registry FstV.Builder FstV.Gra
 Require Import FstV.proofs.BuilderInv FstV.proofs.BuilderRegLemmas FstV.proofs.BuilderGraphLemmas
                FstV.proofs.BuilderBytesLemmas FstV.proofs.BuilderSpecLemmas
                FstV.proofs.BuilderProofs1 FstV.proofs.BuilderProofs2 FstV.proofs.BuilderProofs3
-               FstV.proofs.BuilderProofs4.
+               FstV.proofs.BuilderProofs4 FstV.proofs.BuilderNodeBytes FstV.proofs.BuilderGraphFacts
+               FstV.proofs.StreamGraphLemmas FstV.proofs.StreamProofs.
 Require Import Lia ZifyN ZifyBool ZifyNat.
 
 Lemma skipn_app_exact {A} (l1 l2 : list A) n : length l1 = n -> skipn n (l1 ++ l2) = l2.
@@ -87,10 +88,12 @@ Variable ty : N.
 (* ---------- the fresh builder ---------- *)
 Lemma init_inv rows cols G rem :
   1 + rem <= G -> NODE_MAX * G + 100 < U64 ->
-  inv ty G rem [] [] (new_builder ty rows cols) /\ last_ok [] (new_builder ty rows cols).
+  inv ty G rem [] [] (new_builder ty rows cols) /\ last_ok [] (new_builder ty rows cols) /\
+  cinv [] (new_builder ty rows cols).
 Proof.
-  intros HG1 HG2. split; [|reflexivity].
-  constructor; auto.
+  intros HG1 HG2. split; [|split; [reflexivity|]].
+  2:{ split; [exact I|]. unfold Cstk. cbn. split; [intros t []|exact I]. }
+  constructor.
   - split; [exact I|]. split; [|apply reg_ok_new].
     constructor; try reflexivity.
     intros fuel acc0 Hf. destruct fuel; [cbn in Hf; lia|]. reflexivity.
@@ -101,7 +104,26 @@ Proof.
     + intros a [].
     + reflexivity.
   - unfold top_empty. cbn. intros u Hu. inversion Hu. reflexivity.
+  - reflexivity.
   - cbn. unfold len. cbn. lia.
+  - exact HG2.
+  - unfold len. cbn. lia.
+  - cbn. lia.
+  - exact I.
+  - intros u _. left. reflexivity.
+  - unfold bbytes, body. cbn [new_builder new_builder_v b_write b_out rev app concat].
+    rewrite app_nil_r. apply Forall_app. split; apply le_bytes_bytes.
+Qed.
+
+Lemma key_bytes_rev l : key_bytes (rev l) = key_bytes l.
+Proof.
+  induction l as [|k l IH]; [reflexivity|]. cbn [rev]. rewrite key_bytes_app, IH.
+  unfold key_bytes. cbn [fold_right]. lia.
+Qed.
+Lemma strim_in E a s : strim E -> In (a, s) E -> trimmed (bn_of s).
+Proof.
+  induction E as [|[a0 s0] E0 IH]; intros Ht Hin; [destruct Hin|]. cbn [strim] in Ht. destruct Ht as (H1 & H2).
+  destruct Hin as [Hin|Hin]; [inversion Hin; subst; exact H2|auto].
 Qed.
 
 (* ---------- into_inner ---------- *)
@@ -109,13 +131,17 @@ Lemma b_finish_ok summer G E acc b :
   inv ty G 0 E acc b -> ty < U64 -> (forall l, summer l < 4294967296) ->
   exists bs p, b_finish summer b = Ok bs /\ spec_parse bs = Some p /\
     p_version p = 3 /\ p_ty p = ty /\ p_len p = len acc /\ p_content p = rev acc /\
-    p_checksum p = Some (summer (firstn (length bs - 4) bs)).
+    p_checksum p = Some (summer (firstn (length bs - 4) bs)) /\
+    Forall (fun x => x < 256) bs /\
+    fuel_ok (graph_of (node_table (p_nodes p))) (p_root p) /\
+    (cinv E b -> canonical_outputs (graph_of (node_table (p_nodes p)))) /\
+    p_root p < U64.
 Proof.
-  intros [Hm Hs Htop Hlen Hbud HG Hna] Hty Hsum.
+  intros [Hm Hs Htop Hlen Hbud HG Hna Hkb Htrim Htf Hbb] Hty Hsum.
   unfold b_finish, b_finish_full.
   destruct (compile_from b 0) as [b1 r1] eqn:Hcf.
   destruct (compile_from_ok Hcodec Htotal ty E b (lastkey acc) (rev acc) 0 b1 r1 Hm Hs) as
-    (E1 & -> & Hm1 & F1 & F2 & Flen & Fs & _); auto.
+    (E1 & -> & Hm1 & F1 & F2 & Flen & Fs & _ & Ftrim & Fbb & FC); auto.
   { unfold len, NODE_MAX in *. lia. }
   cbn [firstn] in Fs. destruct Fs as [Fsh Fu FW Fd FL].
   destruct (b_stack b1) as [|root rest] eqn:Hst1; [destruct Fsh|]. cbn [shape] in Fsh.
@@ -123,13 +149,20 @@ Proof.
   assert (Fs : sinv E1 ([] ++ [root]) [] (rev acc)) by (constructor; auto; cbn [app shape]; auto).
   pose proof (node_ok_top _ _ _ _ _ Fs Hrl) as Hnok.
   destruct (compile b1 (u_node root)) as [b2 r2] eqn:Hc2.
-  destruct (compile_ok Hcodec Htotal ty E1 b1 _ b2 r2 Hm1 Hnok) as (E2 & a & -> & Hm2 & _ & _ & G3 & Hcase); auto.
+  assert (Hsz1 : NODE_MAX * (len E1 + 1) + 100 < U64).
   { unfold len, NODE_MAX in *. cbn [length] in *. lia. }
+  pose proof (compile_bbytes ty E1 b1 _ b2 r2 Hm1 Hnok Hsz1 Hc2 Fbb) as Hbb2.
+  destruct (compile_ok Hcodec Htotal ty E1 b1 _ b2 r2 Hm1 Hnok Hsz1 Hc2) as (E2 & a & -> & Hm2 & _ & _ & G3 & Hcase).
   cbn [Lstk] in FL. rewrite Hrl, app_nil_r in FL.
   (* the root is the last node written, or the whole file is the empty final node *)
   assert (Hroot : (E2 = [] /\ a = 0 \/ E2 <> [] /\ a = top_addr E2) /\
-                  (if a =? 0 then [([], 0)] else elang E2 a) = rev acc).
+                  (if a =? 0 then [([], 0)] else elang E2 a) = rev acc /\
+                  (forall a0 s, In (a0, s) E2 -> a0 <> a -> trimmed (bn_of s)) /\
+                  (cinv E b -> cgood E2)).
   { destruct Hm1 as (HE1 & _). destruct Hm2 as (HE2 & _).
+    assert (HFro : cinv E b -> cgood E1 /\ Fro (elang E1) (u_node root)).
+    { intros (Hcg & HCs). destruct (FC 0 Hcg HCs) as (Hcg1 & HC1). split; [exact Hcg1|].
+      cbn [Cpost] in HC1. tauto. }
     destruct Hcase as [(-> & [(-> & Hsen)|(s & Hin & Hsn)])|(s & -> & Hsn)].
     - (* nothing was ever written *)
       assert (E1 = []).
@@ -137,7 +170,8 @@ Proof.
         specialize (Fd a0 (or_introl eq_refl)). cbn [dom] in Fd. destruct Hsen as (_ & Hnt & _).
         rewrite Hnt, Hrl in Fd. destruct Fd as [Fd|(Fd & _)]; [inversion Fd|congruence]. }
       subst E1. split; [left; auto|]. change (0 =? 0) with true. cbv iota.
-      rewrite <- FL. symmetry. apply lang_node_sentinel. exact Hsen.
+      split; [rewrite <- FL; symmetry; apply lang_node_sentinel; exact Hsen|].
+      split; [intros a0 s []|intros _; exact I].
     - (* the root cannot be an older node: it points to something at or above every written node *)
       exfalso. destruct (store_in_node_ok _ _ _ HE1 Hin) as (_ & Hlt & _).
       specialize (Fd a (store_in_addrs _ _ _ Hin)). cbn [dom] in Fd. rewrite Hrl in Fd.
@@ -148,8 +182,11 @@ Proof.
       destruct (store_in_node_ok _ _ _ HE2 Hin) as (_ & _ & H16).
       split; [right; split; [discriminate|reflexivity]|].
       destruct (N.eqb_spec a 0) as [X|_]; [lia|].
-      rewrite (elang_in _ _ _ HE2 Hin), Hsn. rewrite lang_node_cons; auto. }
-  destruct Hroot as (Hroot & Hcontent).
+      split; [rewrite (elang_in _ _ _ HE2 Hin), Hsn; rewrite lang_node_cons; auto|].
+      split.
+      + intros a0 s0 [Hin0|Hin0] Hne; [inversion Hin0; congruence|]. eapply strim_in; eauto.
+      + intros Hci. destruct (HFro Hci) as (A & B). cbn [cgood]. split; [exact A|]. rewrite Hsn. exact B. }
+  destruct Hroot as (Hroot & Hcontent & Htrim2 & Hcg2).
   destruct Hm2 as (HE2 & [B1 B2 B3 B4 B5 B6] & _).
   set (b3 := b_write b2 [u64_le (b_len b2); u64_le a]).
   assert (Hbody : concat (rev (b_out b3)) = body b2 ++ u64_le (b_len b2) ++ u64_le a ++ []).
@@ -164,16 +201,40 @@ Proof.
   assert (Hflen : b_len b2 < U64) by (rewrite G3, F2, Hlen; unfold NODE_MAX, U64 in *; lia).
   assert (Haa : a < U64).
   { destruct Hroot as [(_ & ->)|(_ & ->)]; unfold NODE_MAX, U64 in *; lia. }
+  assert (Hnodes : (if a =? 0 then [] else rev E2) = rev E2).
+  { destruct Hroot as [(-> & ->)|(Hne & ->)]; [reflexivity|].
+    pose proof (store_top_ge _ HE2). destruct (N.eqb_spec (top_addr E2) 0); [lia|reflexivity]. }
+  assert (Htga : tgt_ok E2 a).
+  { destruct Hroot as [(_ & ->)|(Hne & ->)]; [left; reflexivity|right].
+    destruct E2 as [|[a0 s0] E0]; [congruence|]. left. reflexivity. }
+  assert (Hra : forall a0, In a0 (addrs E2) -> a0 <= a).
+  { intros a0 Ha0. destruct Hroot as [(-> & _)|(_ & ->)]; [destruct Ha0|].
+    apply (store_addrs_range _ _ HE2 Ha0). }
   exists ((bd3 ++ u32_le (summer bd3))). eexists. split; [reflexivity|].
   unfold bd3 at 1. rewrite <- !app_assoc.
   rewrite (spec_parse_built ty E2 (body b2) (b_len b2) a (summer bd3)); auto.
   2:{ rewrite B3. exact B2. }
-  split; [reflexivity|]. cbn [p_version p_ty p_len p_content p_checksum].
-  splits; auto.
-  - rewrite G3, F2. exact Hlen.
-  - do 2 f_equal. rewrite app_length. unfold u32_le at 1. rewrite le_bytes_length.
+  split; [reflexivity|]. cbn [p_version p_ty p_len p_content p_checksum p_nodes p_root].
+  rewrite Hnodes.
+  split; [reflexivity|]. split; [reflexivity|]. split; [rewrite G3, F2; exact Hlen|].
+  split; [exact Hcontent|]. split.
+  { do 2 f_equal. rewrite app_length. unfold u32_le at 1. rewrite le_bytes_length.
     replace (length bd3 + 4 - 4)%nat with (length bd3) by lia.
-    symmetry. apply firstn_app_exact. reflexivity.
+    symmetry. apply firstn_app_exact. reflexivity. }
+  split.
+  { apply Forall_app. split; [|apply le_bytes_bytes].
+    unfold bd3. apply Forall_app. split; [exact Hbb2|]. apply Forall_app. split; apply le_bytes_bytes. }
+  split.
+  { (* fuel *)
+    destruct (tree_bound E2 HE2 a Htrim2 Hra (S (N.to_nat a)) a ltac:(lia) Htga) as (Hts & _).
+    rewrite (L_store E2 HE2 a Htga) in Hts.
+    assert (Hpb : pbytes (elang E2 a) <= G).
+    { destruct (N.eqb_spec a 0) as [->|_].
+      - rewrite elang_zero. cbn. lia.
+      - rewrite Hcontent. unfold pbytes, keys_of. rewrite map_rev, key_bytes_rev. rewrite N.add_0_r in Hkb. exact Hkb. }
+    unfold fuel_ok. unfold NODE_MAX, U64 in HG. lia. }
+  split; [|exact Haa].
+  intros Hci. apply canonical_store; auto.
 Qed.
 End Main.
 
@@ -182,7 +243,11 @@ Definition built (summer : list N -> N) (ty : N) (content : kmap) (bs : list N) 
   exists p, spec_parse bs = Some p /\
     p_version p = 3 /\ p_ty p = ty /\ p_len p = len content /\ p_content p = content /\
     p_checksum p = Some (summer (firstn (length bs - 4) bs)) /\
-    wf_fst_b bs = true.
+    wf_fst_b bs = true /\
+    Forall (fun x => x < 256) bs /\
+    fuel_ok (graph_of (node_table (p_nodes p))) (p_root p) /\
+    canonical_outputs (graph_of (node_table (p_nodes p))) /\
+    p_root p < U64.
 
 Theorem build_ops_correct_proof :
   codec_statement -> compile_total_statement ->
@@ -193,12 +258,12 @@ Theorem build_ops_correct_proof :
 Proof.
   intros Hcodec Htotal summer ty rows cols ops Hcalls Hops Hty Hsum Hsize.
   set (G := 1 + key_bytes (map op_key ops)).
-  destruct (init_inv ty rows cols G (key_bytes (map op_key ops) + 0)) as (Hi0 & Hl0).
+  destruct (init_inv ty rows cols G (key_bytes (map op_key ops) + 0)) as (Hi0 & Hl0 & Hc0).
   { unfold G. lia. } { exact Hsize. }
-  destruct (run_extend_ok Hcodec Htotal ty ops G 0 [] [] _ Hi0 Hl0 Hops Hcalls) as (E & acc & b & Hrun & Hinv & Hrev).
+  destruct (run_extend_ok Hcodec Htotal ty ops G 0 [] [] _ Hi0 Hl0 Hops Hcalls) as (E & acc & b & Hrun & Hinv & Hrev & HC).
   change (b_last (new_builder ty rows cols)) with (@None key) in Hrev.
   destruct (b_finish_ok Hcodec Htotal ty summer G E acc b Hinv Hty Hsum) as
-    (bs & p & Hfin & Hparse & P1 & P2 & P3 & P4 & P5).
+    (bs & p & Hfin & Hparse & P1 & P2 & P3 & P4 & P5 & P6 & P7 & P8 & P9).
   exists bs. split.
   - unfold build_ops. rewrite Hrun. exact Hfin.
   - rewrite Hrev in P4. exists p. splits; auto.
